@@ -40,6 +40,51 @@ const c27T0 = int64(1_000_000)
 // one immutable metric description shared by all runs
 var c27ValueMetric = c27NewMetric("value")
 
+// c27Scale: the time axis of a query. Data slot k of a series sits at t0 + k*grid; grid is the finest level-of-detail
+// step of the timescale the query gets. coarse == 0: the whole requested interval is recent, one level of detail.
+// coarse != 0: the request starts before one of the storage resolution switches relative to TimeNow (now-52h+2s:
+// 1m -> 1s tables, now-33d+2m: 1h -> 1m tables), so the timescale has TWO levels (LODs[0] = coarse steps up to the
+// switch edge, LODs[1] = grid steps after it). The data and every compared timestamp lie in the fine part, at least
+// (largest range + grid) after the edge, so every window is made of fine points only and the operator definitions
+// apply unchanged; the coarse part is evaluated by the engine but not compared.
+type c27Scale struct {
+	name   string
+	t0     int64 // time of data slot 0
+	grid   int64 // finest step = spacing of the data slots
+	coarse int64 // coarsest step (0 = single level)
+	edge   int64 // time of the first fine point (two-level only)
+	now    int64 // Options.TimeNow
+	start  int64 // Query.Start
+	tail   int64 // compared grid points after the last data slot
+}
+
+var c27Single = &c27Scale{name: "single-level-1s", t0: c27T0, grid: 1, now: c27T0 + 1000, start: c27T0}
+
+// 60 s + 1 s: edge = now-52h+2s = c27T0-100 (a multiple of 60), two coarse points requested before it
+var c27Two60x1 = &c27Scale{name: "two-level-60s+1s", t0: c27T0, grid: 1, coarse: 60, edge: c27T0 - 100,
+	now: c27T0 - 100 + 52*3600 - 2, start: c27T0 - 100 - 120, tail: 2}
+
+// 3600 s + 60 s: edge = now-33d+2m = 993600 (a multiple of 3600), data from 1000020 (a multiple of 60) on a 60 s grid
+var c27Two3600x60 = &c27Scale{name: "two-level-3600s+60s", t0: 1_000_020, grid: 60, coarse: 3600, edge: 993_600,
+	now: 993_600 + 33*86400 - 120, start: 993_600 - 7200, tail: 2}
+
+func (sc *c27Scale) end(nSlots int) int64 { return sc.t0 + (int64(nSlots)+sc.tail)*sc.grid }
+
+// rangeClass: where a range lies relative to the two steps of the timescale
+func (sc *c27Scale) rangeClass(r int64) string {
+	switch {
+	case r < sc.grid:
+		return "range-below-fine-step"
+	case r == sc.grid:
+		return "range-eq-fine-step"
+	case sc.coarse == 0 || r > sc.coarse:
+		return "range-above-coarse-step"
+	case r == sc.coarse:
+		return "range-eq-coarse-step"
+	}
+	return "range-between-steps"
+}
+
 // ---------------------------------------------------------------------------------------
 // expressions
 
@@ -97,6 +142,27 @@ func (n *c27Node) template() string {
 		return fmt.Sprintf("%s(%s)", n.fn, n.inner.template())
 	}
 	return "?"
+}
+
+// firstRange: the range of the outermost over-time call (0 if none)
+func (n *c27Node) firstRange() int64 {
+	for x := n; x != nil; x = x.inner {
+		if x.kind == "overtime" {
+			return x.rng
+		}
+	}
+	return 0
+}
+
+// withRangesDividedBy: the same expression with every range divided by div (the equivalent expression on a grid of 1 s)
+func (n *c27Node) withRangesDividedBy(div int64) *c27Node {
+	if n == nil || div == 1 {
+		return n
+	}
+	c := *n
+	c.rng = n.rng / div
+	c.inner = n.inner.withRangesDividedBy(div)
+	return &c
 }
 
 func (n *c27Node) outerGrouping() int {
@@ -229,7 +295,7 @@ func c27ParamValue(s string) float64 {
 	return v
 }
 
-func c27RefEval(n *c27Node, data []c27RawSeries, conv c27Conv) []c27RefSeries {
+func c27RefEval(sc *c27Scale, n *c27Node, data []c27RawSeries, conv c27Conv) []c27RefSeries {
 	switch n.kind {
 	case "m":
 		var out []c27RefSeries
@@ -241,23 +307,23 @@ func c27RefEval(n *c27Node, data []c27RawSeries, conv c27Conv) []c27RefSeries {
 			var tg [3]int64
 			copy(tg[:], sr.tags)
 			out = append(out, c27RefSeries{tags: tg, at: func(t int64) float64 {
-				k := t - c27T0
-				if k < 0 || k >= int64(len(sr.vals)) {
+				d := t - sc.t0
+				if d < 0 || d%sc.grid != 0 || d/sc.grid >= int64(len(sr.vals)) {
 					return math.NaN()
 				}
-				return sr.vals[k]
+				return sr.vals[d/sc.grid]
 			}})
 		}
 		return out
 	case "overtime":
-		in := c27RefEval(n.inner, data, conv)
+		in := c27RefEval(sc, n.inner, data, conv)
 		out := make([]c27RefSeries, len(in))
 		fn := strings.TrimSuffix(n.fn, "_over_time")
 		for i := range in {
 			src := in[i]
 			out[i] = c27RefSeries{tags: src.tags, at: func(t int64) float64 {
 				var w []float64
-				for tt := t - n.rng + 1; tt <= t; tt++ { // the window (t-r, t] on the one-second grid
+				for tt := t; tt > t-n.rng; tt -= sc.grid { // the window (t-r, t] on the grid of the finest step
 					w = append(w, src.at(tt))
 				}
 				p := c27Present(w)
@@ -270,7 +336,7 @@ func c27RefEval(n *c27Node, data []c27RawSeries, conv c27Conv) []c27RefSeries {
 		}
 		return out
 	case "agg":
-		in := c27RefEval(n.inner, data, conv)
+		in := c27RefEval(sc, n.inner, data, conv)
 		type grp struct {
 			tags    [3]int64
 			members []c27RefSeries
@@ -426,18 +492,22 @@ const (
 	c27ModeRepaired = 1 // diagnosis only: the reduction's `what` is handed to the storage query
 )
 
-func c27Run(data []c27RawSeries, expr string, nSlots int, mode int) (res c27RunResult) {
+func c27Run(sc *c27Scale, data []c27RawSeries, expr string, nSlots int, mode int) (res c27RunResult) {
 	defer func() {
 		if p := recover(); p != nil {
 			res.err = fmt.Sprintf("panic: %v", p)
 		}
 	}()
-	stub := &c27Stub{metric: c27ValueMetric, t0: c27T0, series: data}
+	stub := &c27Stub{metric: c27ValueMetric, t0: sc.t0, grid: sc.grid, series: data}
 	ng := NewEngine(time.UTC, 0)
-	ev, err := ng.NewEvaluator(context.Background(), stub, Query{Start: c27T0, End: c27T0 + int64(nSlots), Step: 1, Expr: expr,
-		Options: Options{TimeNow: c27T0 + 1000, Mode: data_model.RangeQuery}})
+	ev, err := ng.NewEvaluator(context.Background(), stub, Query{Start: sc.start, End: sc.end(nSlots), Step: 1, Expr: expr,
+		Options: Options{TimeNow: sc.now, Mode: data_model.RangeQuery}})
 	if err != nil {
 		res.err = err.Error()
+		return res
+	}
+	if problem := sc.checkTimescale(&ev); problem != "" {
+		res.err = "harness: " + problem
 		return res
 	}
 	if len(ev.ars) != 0 {
@@ -475,8 +545,12 @@ func c27Run(data []c27RawSeries, expr string, nSlots int, mode int) (res c27RunR
 		return res
 	}
 	// the engine widens the evaluated interval by the largest range; only the requested timestamps are compared
-	lo, hi := c27Requested(ts.Time, nSlots)
+	lo, hi := c27Requested(sc, ts.Time, nSlots)
 	res.times = append([]int64{}, ts.Time[lo:hi]...)
+	if int64(len(res.times)) != int64(nSlots)+sc.tail {
+		res.err = fmt.Sprintf("harness: %d compared timestamps expected, the result has %d", int64(nSlots)+sc.tail, len(res.times))
+		return res
+	}
 	res.table = c27Table{}
 	for _, d := range ts.Series.Data {
 		var tg [3]int64
@@ -513,13 +587,31 @@ func c27Run(data []c27RawSeries, expr string, nSlots int, mode int) (res c27RunR
 	return res
 }
 
-func c27Requested(times []int64, nSlots int) (lo, hi int) {
+// checkTimescale: the timescale the engine got is the one the scale promises (guards against a vacuous family).
+func (sc *c27Scale) checkTimescale(ev *evaluator) string {
+	lods := ev.t.LODs
+	if sc.coarse == 0 {
+		if len(lods) != 1 || lods[0].Step != sc.grid {
+			return fmt.Sprintf("scale %s: one level of step %d expected, got %+v", sc.name, sc.grid, lods)
+		}
+		return ""
+	}
+	if len(lods) != 2 || lods[0].Step != sc.coarse || lods[1].Step != sc.grid {
+		return fmt.Sprintf("scale %s: levels %d+%d expected, got %+v", sc.name, sc.coarse, sc.grid, lods)
+	}
+	if first := ev.t.Time[lods[0].Len]; first != sc.edge {
+		return fmt.Sprintf("scale %s: first fine point expected at %d, is at %d", sc.name, sc.edge, first)
+	}
+	return ""
+}
+
+func c27Requested(sc *c27Scale, times []int64, nSlots int) (lo, hi int) {
 	lo, hi = len(times), len(times)
 	for i, t := range times {
-		if t >= c27T0 && i < lo {
+		if t >= sc.t0 && i < lo {
 			lo = i
 		}
-		if t >= c27T0+int64(nSlots) {
+		if t >= sc.end(nSlots) {
 			hi = i
 			break
 		}
@@ -534,9 +626,9 @@ func c27Requested(times []int64, nSlots int) (lo, hi int) {
 // oracle
 
 // c27MatchesReference: is the engine's table one of the acceptable evaluations of n?
-func c27MatchesReference(n *c27Node, data []c27RawSeries, got *c27RunResult) (ok bool, key string, ti int, want c27Table) {
+func c27MatchesReference(sc *c27Scale, n *c27Node, data []c27RawSeries, got *c27RunResult) (ok bool, key string, ti int, want c27Table) {
 	for ci, conv := range c27Convs() {
-		ref := c27Materialise(c27RefEval(n, data, conv), got.times)
+		ref := c27Materialise(c27RefEval(sc, n, data, conv), got.times)
 		eq, k, i := c27TablesEqual(got.table, ref, len(got.times))
 		if eq {
 			return true, "", 0, ref
@@ -552,11 +644,11 @@ func c27MatchesReference(n *c27Node, data []c27RawSeries, got *c27RunResult) (ok
 // whole-series ranking alike (the statement leaves the choice open, see notes): every returned series is an
 // input series of that group with its values unchanged, at most k series per group, and a series that is present
 // everywhere and strictly larger (topk) / smaller (bottomk) than a returned one everywhere is returned too.
-func c27TopKCheck(n *c27Node, data []c27RawSeries, got *c27RunResult) (string, string) {
+func c27TopKCheck(sc *c27Scale, n *c27Node, data []c27RawSeries, got *c27RunResult) (string, string) {
 	k := int(c27ParamValue(n.param))
 	var firstProblem, firstDesc string
 	for _, conv := range c27Convs() {
-		in := c27Materialise(c27RefEval(n.inner, data, conv), got.times)
+		in := c27Materialise(c27RefEval(sc, n.inner, data, conv), got.times)
 		problem, desc := "", ""
 		groupOf := func(key string) string {
 			var tg [3]int64
@@ -665,7 +757,7 @@ func c27HasTopK(n *c27Node) *c27Node {
 }
 
 // c27Judge returns "" when the engine result is acceptable, else (signature class, description).
-func c27Judge(n *c27Node, data []c27RawSeries, got *c27RunResult) (string, string) {
+func c27Judge(sc *c27Scale, n *c27Node, data []c27RawSeries, got *c27RunResult) (string, string) {
 	if got.err != "" {
 		return "engine-error", got.err
 	}
@@ -676,19 +768,19 @@ func c27Judge(n *c27Node, data []c27RawSeries, got *c27RunResult) (string, strin
 		if tk != n {
 			return "", "" // topk below another operator: not judged (see notes)
 		}
-		p, d := c27TopKCheck(n, data, got)
+		p, d := c27TopKCheck(sc, n, data, got)
 		if p == "" {
 			return "", ""
 		}
 		return n.fn + "-" + p, d
 	}
-	ok, key, ti, want := c27MatchesReference(n, data, got)
+	ok, key, ti, want := c27MatchesReference(sc, n, data, got)
 	if ok {
 		return "", ""
 	}
 	t := int64(0)
 	if ti < len(got.times) {
-		t = got.times[ti] - c27T0
+		t = (got.times[ti] - sc.t0) / sc.grid
 	}
 	return "differs", fmt.Sprintf("series {%s} at slot %d: engine %s, definition %s", key, t, got.table.String(), want.String())
 }
@@ -721,6 +813,16 @@ type c27Dataset struct {
 	layout int
 	series []c27RawSeries
 	slots  int
+	scale  *c27Scale
+}
+
+// c27OnScale: the same series sets on another time axis
+func c27OnScale(ds []c27Dataset, sc *c27Scale) []c27Dataset {
+	out := append([]c27Dataset{}, ds...)
+	for i := range out {
+		out[i].scale = sc
+	}
+	return out
 }
 
 func (d *c27Dataset) String() string {
@@ -772,7 +874,7 @@ func c27Datasets(nSeries, slots, fullSeries int, reps [][]float64) []c27Dataset 
 		var rec func(i int)
 		rec = func(i int) {
 			if i == nSeries {
-				d := c27Dataset{layout: layout, slots: slots}
+				d := c27Dataset{layout: layout, slots: slots, scale: c27Single}
 				for s := 0; s < nSeries; s++ {
 					rows := all
 					if s >= fullSeries {
@@ -895,8 +997,8 @@ var c27ErrNorm = regexp.MustCompile(`[0-9]+|"[^"]*"`)
 // on its own by the engine in the same mode, already fails.
 func c27InnermostFailing(n *c27Node, d *c27Dataset) *c27Node {
 	for n.inner != nil && n.inner.kind != "m" {
-		r := c27Run(d.series, n.inner.text(), d.slots, c27ModeAsIs)
-		if cls, _ := c27Judge(n.inner, d.series, &r); cls == "" {
+		r := c27Run(d.scale, d.series, n.inner.text(), d.slots, c27ModeAsIs)
+		if cls, _ := c27Judge(d.scale, n.inner, d.series, &r); cls == "" {
 			break
 		}
 		n = n.inner
@@ -942,6 +1044,54 @@ func TestVerifC27(t *testing.T) {
 			cases = append(cases, c27Case{n, &winData[i]})
 		}
 	}
+	singleCases := len(cases)
+	// two-level timescales: every expression of the alphabet also on a timescale with a coarse and a fine part, the
+	// ranges equal to the fine step, between the two steps, equal to the coarse step and above it
+	type twoLevel struct {
+		sc     *c27Scale
+		ranges []int64
+	}
+	twos := []twoLevel{{c27Two60x1, []int64{1, 2, 30, 60, 61}}}
+	if thorough {
+		twos = []twoLevel{{c27Two60x1, []int64{1, 2, 3, 30, 59, 60, 61}}, {c27Two3600x60, []int64{60, 120, 1800, 3600, 3660}}}
+	}
+	// series sets of this part: windows 2 series x 3 slots, first over all 64 rows, second over one (thorough two)
+	// representative rows; instant 3 series x 2 slots with two representative third series
+	twoWinData := c27Datasets(2, 3, 1, winReps[:mc.Pick(1, 2)])
+	twoInstData := c27Datasets(3, 2, 2, instReps[:2])
+	twoCases := map[string]any{}
+	for _, tw := range twos {
+		for _, r := range tw.ranges {
+			if r%tw.sc.grid != 0 || tw.sc.t0-r <= tw.sc.edge {
+				t.Fatalf("scale %s: range %d is not a multiple of the grid or reaches the coarse part", tw.sc.name, r)
+			}
+		}
+		before := len(cases)
+		inst2, win2 := c27Exprs(aggs, tw.ranges)
+		id := c27OnScale(twoInstData, tw.sc)
+		wd := c27OnScale(twoWinData, tw.sc)
+		for i := range id {
+			for _, n := range inst2 {
+				cases = append(cases, c27Case{n, &id[i]})
+			}
+			cases = append(cases, c27Case{&c27Node{kind: "m"}, &id[i]})
+		}
+		for i := range wd {
+			for _, n := range win2 {
+				cases = append(cases, c27Case{n, &wd[i]})
+			}
+		}
+		// the timescale the engine builds for this request (recorded; every run re-checks it)
+		probe := c27Run(tw.sc, wd[len(wd)-1].series, fmt.Sprintf("sum_over_time(m[%ds])", tw.ranges[len(tw.ranges)-1]), 3, c27ModeAsIs)
+		if probe.err != "" {
+			t.Fatalf("scale %s: %s", tw.sc.name, probe.err)
+		}
+		twoCases[tw.sc.name] = map[string]any{"cases": len(cases) - before, "ranges_s": fmt.Sprint(tw.ranges), "expressions_windowed": len(win2),
+			"datasets_windowed": len(wd), "datasets_instant": len(id), "levels_s": fmt.Sprintf("%d+%d", tw.sc.coarse, tw.sc.grid),
+			"first_fine_point_before_data_slot_0_s": tw.sc.t0 - tw.sc.edge, "compared_timestamps_after_last_slot": tw.sc.tail}
+	}
+	rep.Parts["two_level_timescales"] = twoCases
+	rep.Parts["single_level_timescale"] = map[string]any{"cases": singleCases}
 	rep.Bounds["expressions_instant"] = len(instant)
 	rep.Bounds["expressions_windowed"] = len(windowed)
 	rep.Bounds["datasets_instant"] = len(instData)
@@ -951,6 +1101,7 @@ func TestVerifC27(t *testing.T) {
 	rep.Rule = "expressions: op in {sum,min,max,avg,count,group,stddev,stdvar,quantile(0/0.5/1),topk(1/2),bottomk(1/2)} x {none, by (a), without (a)} over m (instant part, and plain m); " +
 		"f_over_time(m[r]), op(f_over_time(m[r])) and f_over_time(op(m)[r:]) for the 7 reducible f and r in the stated ranges (quick: 8 representative ops, thorough: all 15); " +
 		"series sets: instant part 3 series x 2 slots (two series over all 16 rows of {missing,1,2,5}, the third over 4 representative rows), windowed part 2 series x 3 slots (first over all 64 rows, second over representative rows; thorough adds 2x4 and 3x3 sets), each under two tag layouts; " +
+		"two-level timescales (request straddling the now-52h 1m->1s switch: 60 s + 1 s levels; thorough also the now-33d 1h->1m switch: 3600 s + 60 s levels, data on a 60 s grid): the same expression forms with ranges equal to the fine step, between the steps, equal to the coarse step and above it, on series sets lying in the fine part (compared: the data slots and 2 further fine points; every window lies in the fine part); " +
 		"every case is run with the reduction rules disabled (engine over raw series) and, when a reduction applies, with the unchanged engine. Non-trivial = case whose series set contains a missing point and at least two present points"
 	rep.Assume("stub storage contract modelled on internal/api QuerySeries/tsValues.value: rows (count,sum,min,max,sumsquare) merged per group and slot, digest derived from the merged row; every raw point is one measurement; level of detail 1 s")
 	rep.Assume("value of count/group/stddev/stdvar over no present point and of count_over_time over an empty window is left open (no sample or 0/1): the reference is evaluated under all 16 combinations")
@@ -964,7 +1115,18 @@ func TestVerifC27(t *testing.T) {
 		}
 	}
 	describe := func(c c27Case) map[string]any {
-		return map[string]any{"expr": c.node.text(), "series": c.data.String(), "layout": c.data.layout}
+		return map[string]any{"expr": c.node.text(), "series": c.data.String(), "layout": c.data.layout, "timescale": c.data.scale.name}
+	}
+	// failsOnSingleLevel: does the same case (ranges counted in grid steps) fail on a one-level timescale in the
+	// current mode of the rule table as well? Used only to name a violation found on a two-level timescale.
+	failsOnSingleLevel := func(c c27Case) bool {
+		n := c.node.withRangesDividedBy(c.data.scale.grid)
+		one := *c27Single
+		one.tail = c.data.scale.tail // the same timestamps after the last slot are compared
+		r := c27Run(&one, c.data.series, n.text(), c.data.slots, c27ModeAsIs)
+		atomic.AddInt64(&execs, 1)
+		cls, _ := c27Judge(&one, n, c.data.series, &r)
+		return cls != ""
 	}
 	size := func(c c27Case) int {
 		n := len(c.node.text())
@@ -999,13 +1161,13 @@ func TestVerifC27(t *testing.T) {
 		reductionRules = nil
 		c27Parallel(len(part), func(i int) {
 			c := part[i]
-			r := c27Run(c.data.series, c.node.text(), c.data.slots, c27ModeAsIs)
+			r := c27Run(c.data.scale, c.data.series, c.node.text(), c.data.slots, c27ModeAsIs)
 			atomic.AddInt64(&execs, 1)
 			if r.reduced {
 				coll.violate("C27:harness-reduction-not-disabled", 0, c.node.text(), "a reduction was applied although the rule table is empty", describe(c))
 				return
 			}
-			cls, desc := c27Judge(c.node, c.data.series, &r)
+			cls, desc := c27Judge(c.data.scale, c.node, c.data.series, &r)
 			atomic.AddInt64(&judged, 1)
 			if cls == "" {
 				outcome("raw-ok:" + c.node.template())
@@ -1023,22 +1185,25 @@ func TestVerifC27(t *testing.T) {
 			default:
 				sig += cls
 			}
+			if c.data.scale.coarse != 0 && !failsOnSingleLevel(c) {
+				sig += ":only-on-two-level-timescale"
+			}
 			outcome(sig)
 			d := describe(c)
 			d["innermost_failing"] = bad.text()
-			coll.violate(sig, size(c), c.node.text()+"|"+c.data.String(), fmt.Sprintf("engine over raw series (reductions disabled): %s on %s: %s", c.node.text(), c.data.String(), desc), d)
+			coll.violate(sig, size(c), c.node.text()+"|"+c.data.String(), fmt.Sprintf("engine over raw series (reductions disabled), timescale %s: %s on %s: %s", c.data.scale.name, c.node.text(), c.data.String(), desc), d)
 		})
 		// phase B: the unchanged engine (reduction rules enabled)
 		reductionRules = savedRules
 		c27Parallel(len(part), func(i int) {
 			c := part[i]
-			r := c27Run(c.data.series, c.node.text(), c.data.slots, c27ModeAsIs)
+			r := c27Run(c.data.scale, c.data.series, c.node.text(), c.data.slots, c27ModeAsIs)
 			atomic.AddInt64(&execs, 1)
 			if !r.reduced {
 				return // no reduction applied: same evaluation as phase A
 			}
 			atomic.AddInt64(&reducedCases, 1)
-			cls, desc := c27Judge(c.node, c.data.series, &r)
+			cls, desc := c27Judge(c.data.scale, c.node, c.data.series, &r)
 			if cls == "" {
 				outcome("reduced-ok:" + c.node.template())
 				return
@@ -1051,13 +1216,16 @@ func TestVerifC27(t *testing.T) {
 			if !r.whole {
 				// only a sub-expression was reduced: find the smallest sub-expression that fails with the reduction
 				bad := c27InnermostFailing(c.node, c.data)
-				rb := c27Run(c.data.series, bad.text(), c.data.slots, c27ModeAsIs)
+				rb := c27Run(c.data.scale, c.data.series, bad.text(), c.data.slots, c27ModeAsIs)
 				atomic.AddInt64(&execs, 1)
 				if !rb.whole {
 					// the reduced part on its own is acceptable; the operator above it mishandles that (acceptable) input
 					sig := "C27:aggregation-differs:" + bad.fn + ":" + c27MissingClass(c.data.series)
 					if bad.kind == "overtime" {
 						sig = "C27:over-time-differs:" + bad.fn + ":" + c27MissingClass(c.data.series)
+					}
+					if c.data.scale.coarse != 0 && !failsOnSingleLevel(c) {
+						sig += ":only-on-two-level-timescale"
 					}
 					outcome(sig)
 					d := describe(c)
@@ -1067,13 +1235,17 @@ func TestVerifC27(t *testing.T) {
 				}
 				c = c27Case{bad, c.data}
 				r = rb
-				_, desc = c27Judge(c.node, c.data.series, &r)
+				_, desc = c27Judge(c.data.scale, c.node, c.data.series, &r)
 			}
-			rr := c27Run(c.data.series, c.node.text(), c.data.slots, c27ModeRepaired)
+			rr := c27Run(c.data.scale, c.data.series, c.node.text(), c.data.slots, c27ModeRepaired)
 			atomic.AddInt64(&execs, 1)
-			rcls, _ := c27Judge(c.node, c.data.series, &rr)
-			redMu.Lock()
+			rcls, _ := c27Judge(c.data.scale, c.node, c.data.series, &rr)
 			tpl := c.node.template()
+			if c.data.scale.coarse != 0 && !failsOnSingleLevel(c) {
+				// the same expression (ranges in grid steps) on the same series is right on a one-level timescale
+				tpl += c27OnlyTwoLevel + c.data.scale.rangeClass(c.node.firstRange())
+			}
+			redMu.Lock()
 			if redFails[tpl] == nil {
 				redFails[tpl] = map[int]*redFail{}
 			}
@@ -1081,7 +1253,7 @@ func TestVerifC27(t *testing.T) {
 			cur := redFails[tpl][g]
 			if cur == nil || size(c) < size(cur.c) || (size(c) == size(cur.c) && c.data.String() < cur.c.data.String()) {
 				redFails[tpl][g] = &redFail{c: c, repaired: rcls == "" && (cur == nil || cur.repaired),
-					desc: fmt.Sprintf("%s on %s: with the reduction (%s; storage was asked %v) %s", c.node.text(), c.data.String(), r.reduction, r.queries, desc)}
+					desc: fmt.Sprintf("timescale %s: %s on %s: with the reduction (%s; storage was asked %v) %s", c.data.scale.name, c.node.text(), c.data.String(), r.reduction, r.queries, desc)}
 			} else if rcls != "" {
 				cur.repaired = false
 			}
@@ -1125,7 +1297,7 @@ func TestVerifC27(t *testing.T) {
 		first := byG[gs[0]]
 		d := describe(first.c)
 		d["template"] = tpl
-		if allRepaired {
+		if allRepaired && !strings.Contains(tpl, c27OnlyTwoLevel) {
 			// the rule itself is sound: the result is wrong only because the `what` computed by the reduction never reaches the storage query
 			d["templates_affected"] = tpl
 			coll.violate("C27:reduced-query-ignores-reduction-what", size(first.c), tpl, "reduction changes the result; it would not if the reduction's `what` were passed to the storage query: "+first.desc, d)
@@ -1160,7 +1332,7 @@ func TestVerifC27(t *testing.T) {
 			d = winData[len(winData)/3]
 		}
 		reductionRules = nil
-		r := c27Run(d.series, smp.n.text(), d.slots, c27ModeAsIs)
+		r := c27Run(d.scale, d.series, smp.n.text(), d.slots, c27ModeAsIs)
 		reductionRules = savedRules
 		rep.Sample(map[string]any{"expr": smp.n.text(), "series": d.String(), "engine_over_raw_series": r.table.String()})
 	}
@@ -1181,10 +1353,11 @@ func c27RunWithoutReductionInfo(c c27Case) (cls string) {
 			cls = "panic"
 		}
 	}()
-	stub := &c27Stub{metric: c27ValueMetric, t0: c27T0, series: c.data.series}
+	sc := c.data.scale
+	stub := &c27Stub{metric: c27ValueMetric, t0: sc.t0, grid: sc.grid, series: c.data.series}
 	ng := NewEngine(time.UTC, 0)
-	ev, err := ng.NewEvaluator(context.Background(), stub, Query{Start: c27T0, End: c27T0 + int64(c.data.slots), Step: 1, Expr: c.node.text(),
-		Options: Options{TimeNow: c27T0 + 1000, Mode: data_model.RangeQuery}})
+	ev, err := ng.NewEvaluator(context.Background(), stub, Query{Start: sc.start, End: sc.end(c.data.slots), Step: 1, Expr: c.node.text(),
+		Options: Options{TimeNow: sc.now, Mode: data_model.RangeQuery}})
 	if err != nil {
 		return "error"
 	}
@@ -1201,7 +1374,7 @@ func c27RunWithoutReductionInfo(c c27Case) (cls string) {
 	}
 	defer cancel()
 	ts := v.(*TimeSeries)
-	lo, hi := c27Requested(ts.Time, c.data.slots)
+	lo, hi := c27Requested(sc, ts.Time, c.data.slots)
 	r := c27RunResult{times: append([]int64{}, ts.Time[lo:hi]...), table: c27Table{}}
 	for _, d := range ts.Series.Data {
 		var tg [3]int64
@@ -1214,6 +1387,8 @@ func c27RunWithoutReductionInfo(c c27Case) (cls string) {
 		}
 		r.table[c27TagKey(tg)] = append([]float64{}, (*d.Values)[lo:hi]...)
 	}
-	cls, _ = c27Judge(c.node, c.data.series, &r)
+	cls, _ = c27Judge(sc, c.node, c.data.series, &r)
 	return cls
 }
+
+const c27OnlyTwoLevel = ":only-on-two-level-timescale:"
